@@ -47,6 +47,7 @@ type World struct {
 	addrTaken     map[*ssa.Function]bool
 	fieldFuncs    map[string]map[*ssa.Function]bool
 	fieldFuncsBad map[string]bool
+	envField      string
 	baseMem       map[string]AV
 }
 
